@@ -1096,6 +1096,7 @@ class Interp:
                     if o.kind in ("normal", "continue"):
                         work.append(o.st)
                     elif o.kind == "break":
+                        self.rule.loop_break(self, stmt, o.st)
                         exits.append(o.st)
                     else:
                         outs.append(o)
@@ -1197,6 +1198,9 @@ class BaseRule:
 
     def for_iter(self, it, st, stmt, itv):
         return None
+
+    def loop_break(self, it, stmt, st):
+        pass
 
     def default_value(self, it, fi, p, d):
         return None
